@@ -486,7 +486,8 @@ func c13LocalFS(e *Env, paths []string) {
 	}
 	before := snapshot(outer, base)
 	directed := []string{"", ".", "..", "/", "../sentinel.txt", "/../sentinel.txt", "a/../../sentinel.txt", "../baseX",
-		"../a", "a/../../a", "..a", "/..", "a/b/../../..", "../base/a/in.txt", "a/in.txt", "./a/../a/in.txt"}
+		"../a", "a/../../a", "..a", "/..", "a/b/../../..", "../base/a/in.txt", "a/in.txt", "./a/../a/in.txt",
+		filepath.Join(outer, "sentinel.txt"), outer, "lnk", "a/lnk2"}
 	nd := len(directed) * len(directed) * len(ops)
 	for i := 0; i < nd+n; i++ {
 		o := ops[i%len(ops)]
@@ -513,6 +514,27 @@ func c13LocalFS(e *Env, paths []string) {
 		if strings.Contains(out, "SECRET") {
 			e.R.Spec(c, "read data from outside the base: "+out, "")
 		}
+		// two-step escapes: a link created inside the base must not lead outside it
+		if o.name == "Symlink" && err == nil {
+			if b, rerr := lfs.ReadFile(q); rerr == nil && strings.Contains(string(b), "SECRET") {
+				e.R.Spec(c, "Symlink then ReadFile through the link read data from outside the base: "+string(b), "")
+			}
+		}
+		filepath.WalkDir(base, func(pth string, d fs.DirEntry, werr error) error {
+			if werr != nil || d.Type()&fs.ModeSymlink == 0 {
+				return nil
+			}
+			t, _ := os.Readlink(pth)
+			if !filepath.IsAbs(t) {
+				t = filepath.Join(filepath.Dir(pth), t)
+			}
+			t = filepath.Clean(t)
+			if t != base && !strings.HasPrefix(t, base+"/") {
+				e.R.Spec(c, fmt.Sprintf("a symbolic link inside the base points outside it: %s -> %s", strings.ReplaceAll(pth, outer, "<tmp>"), strings.ReplaceAll(t, outer, "<tmp>")), "")
+				os.Remove(pth)
+			}
+			return nil
+		})
 		// the tree must stay usable for the next case
 		if _, err := os.Stat(filepath.Join(base, "a")); err != nil {
 			os.MkdirAll(filepath.Join(base, "a", "b"), 0o755)
